@@ -112,9 +112,8 @@ impl Stats {
     fn absorb(&mut self, o: &mut Outcome) {
         self.evals += o.evals.max(1);
         self.cases += 1;
-        if let Some(d) = o.digest {
-            self.digests.push(d);
-        }
+        // one entry per case (0 = the case has no digest) so that the index in the digest file IS the case index
+        self.digests.push(o.digest.unwrap_or(0));
         if let Some(fp) = o.nontrivial {
             let new = self.fps.insert(fp);
             if new && self.samples.len() < 6 {
@@ -262,6 +261,8 @@ pub fn run_property(prop: &Property, ctx: &mut Ctx, journal: &Journal, only_phas
                             break;
                         }
                         stats.absorb(&mut o);
+                        // the digest file is indexed by generated-case number: corpus tapes are not in it
+                        stats.digests.pop();
                     }
                 }
                 if failure.is_some() {
